@@ -417,4 +417,29 @@ theorem sum_popByte_eq_countBits (n : Nat) (bs : Bytes) :
       simp only [countBits, hr, List.filter_append, List.length_append, hf, List.length_map,
         List.map_cons, List.map_nil, List.sum_cons, List.sum_nil, popByte, Nat.add_zero]
 
+/-- the byte popcount sum of a byte-wise combination counts the bit positions where the combined
+    bit is set -/
+theorem sum_popByte_zip_eq_count (f : Nat → Nat → Nat) (g : Bool → Bool → Bool) (n : Nat) (x y : Bytes)
+    (hfg : ∀ u v i, (f u v).testBit i = g (u.testBit i) (v.testBit i)) :
+    ((Bloom.zipBytes f n x y).map popByte).sum
+      = ((List.range (8 * n)).filter fun p => g (testBitB x p) (testBitB y p)).length := by
+  have h1 : ((Bloom.zipBytes f n x y).map popByte).sum
+      = ((List.range n).map fun i => popByte ((Bloom.zipBytes f n x y).getD i 0)).sum := by
+    rw [sum_popByte_zip]
+    congr 1
+    apply List.map_congr_left
+    intro i hi
+    rw [zipBytes_getD _ _ _ _ _ (by simpa using hi)]
+  rw [h1, sum_popByte_eq_countBits, countBits]
+  congr 1
+  apply List.filter_congr
+  intro p hp
+  have hp : p / 8 < n := by have : p < 8 * n := by simpa using hp
+                            omega
+  simp only [testBitB_eq, zipBytes_getD _ _ _ _ _ hp, hfg]
+
+theorem take_zipBytes (f : Nat → Nat → Nat) (n : Nat) (x y : Bytes) :
+    (Bloom.zipBytes f n x y).take n = Bloom.zipBytes f n x y :=
+  List.take_of_length_le (by rw [zipBytes_length]; exact Nat.le_refl n)
+
 end PyProb
